@@ -412,6 +412,57 @@ Fixpoint no_fast_path (s : state) (tr : list step) : Prop :=
 Definition KnownFastPathMulti (s : state) (h : peer) (inc : list kt) (held : held_map) : Prop :=
   (2 <= length inc)%nat /\ length (first_pass s h inc held) = 1%nat.
 
+(* ---- vocabulary of the liveness theorem ---- *)
+(* a round for record version x and holder h: an advert of h that contains x.  Recorded with the
+   state before, the store contents passed in, and the state after. *)
+Definition round := (state * held_map * state)%type.
+Definition r_pre (r : round) : state := fst (fst r).
+Definition r_held (r : round) : held_map := snd (fst r).
+Definition r_post (r : round) : state := snd r.
+Fixpoint rounds (h : peer) (x : kt) (s : state) (tr : list step) : list round :=
+  match tr with
+  | [] => []
+  | (o, _, post) :: r =>
+      match o with
+      | AddKeys h' inc held =>
+          if (h' =? h) && existsb (kt_eqb x) inc then (s, held, post) :: rounds h x post r
+          else rounds h x post r
+      | _ => rounds h x post r
+      end
+  end.
+
+(* fairness premises on one round (U = the finite universe of record versions, one per key) *)
+Definition fair_round (U : list kt) (h : peer) (x : kt) (r : round) : Prop :=
+  let pre := r_pre r in
+  (* the record is still wanted, in range and not beyond the fullness limit *)
+  is_held (r_held r) (fst x) = false /\
+  (forall rg, range pre = Some rg -> kdist (fst x) <= rg) /\
+  (forall f, farthest pre = Some f -> kdist (fst x) <= f) /\
+  (* responsive holders: no fetch has timed out at this moment *)
+  (forall e, In e (ongoing pre) -> ~ expired pre e) /\
+  (* the queued entry for (x, h), if any, has not passed PENDING_TIMEOUT *)
+  (forall d, In ((x, h), d) (tbf pre) -> now pre < d) /\
+  (* the store only holds record versions of the universe *)
+  (forall k t, held_get (r_held r) k = Some t -> In (k, t) U).
+
+(* between consecutive rounds: stored records stay stored, and every fetch that was in flight
+   after the earlier round has been stored by the later one *)
+Definition fair_link (r1 r2 : round) : Prop :=
+  (forall k, is_held (r_held r1) k = true -> is_held (r_held r2) k = true) /\
+  (forall e, In e (ongoing (r_post r1)) -> is_held (r_held r2) (og_key e) = true).
+Fixpoint fair_chain (rs : list round) : Prop :=
+  match rs with
+  | r1 :: tl => match tl with r2 :: _ => fair_link r1 r2 /\ fair_chain tl | [] => True end
+  | [] => True
+  end.
+
+Definition adverts_in (U : list kt) (tr : list step) : Prop :=
+  forall o out post h inc held, In (o, out, post) tr -> o = AddKeys h inc held -> incl inc U.
+
+(* number of universe keys not yet stored *)
+Definition unheld_count (U : list kt) (held : held_map) : nat :=
+  length (filter (fun u => negb (is_held held (fst u))) U).
+
 (* diagnostics for replay files: index of the first rejected step, the clause values, the state
    the deterministic part reached *)
 Definition diag_step (pre : state) (o : op) (out : output) (post : state) : list bool * state :=
